@@ -79,6 +79,8 @@ SCENARIOS = {
         ('reparent-vs-delete-new-parent', [('rp_update', 39, 5, 5, 6), ('rp_delete', 6)]),
         ('delete-parent-vs-create-child', [('rp_delete', 5), ('rp_create', 39, 7, 7, 5)]),
         ('detach-vs-move-child', [('rp_update', 39, 4, 4, None), ('rp_update', 39, 5, 5, 1)]),
+        ('move-vs-delete-self', [('rp_update', 39, 5, 5, 6), ('rp_delete', 5)]),
+        ('rename-vs-delete-self', [('rp_update', 39, 5, 9, 'absent'), ('rp_delete', 5)]),
     ],
     'C10': [
         ('attr-change-vs-write-same-consumer', [('alloc_put', 39, dict(cons(2, 1, [(2, [(0, 2)])]), proj=2)),
